@@ -115,6 +115,25 @@ pub fn run() -> Report {
                     acc.count("validated-stale-siblings-at-the-end-height", 1);
                 }
             }
+            // the tip T is the end of the active chain, also when the index remembers a taller branch that was fully validated
+            // and then invalidated (invalidateblock, a late validation failure): its first block carries FAILED_VALID,
+            // the descendants FAILED_CHILD only (or both flags), and it ends above T
+            let tip0 = c.base + c.n as u64 - 1;
+            if c.n >= 2 && c.n < 10_000 && i % 3 != 1 && c.end.map(|e| e >= tip0).unwrap_or(true) {
+                use refmodel::world::{ACTIVE, FAILED_CHILD, FAILED_VALID};
+                let mut parent = chain.blocks[c.n - 2].hash();
+                let child_flags = [FAILED_CHILD, FAILED_CHILD | FAILED_VALID, FAILED_CHILD][i % 3];
+                for k in 0..3u64 {
+                    let txs = vec![refmodel::chain::coinbase(tip0 + k, 0xdead + k as u32, vec![refmodel::chain::pay(250, 9)])];
+                    let b = refmodel::ser::Block::build(1, parent, 1_650_000_500 + k as u32, 0x1d00ffff, 77 + k as u32, txs);
+                    world.add_block_status(8, tip0 + k, &b, ACTIVE | if k == 0 { FAILED_VALID } else { child_flags });
+                    parent = b.hash();
+                }
+                if stale_seed.is_none() {
+                    stale_seed = Some(["1", "2", "6", "9", "17"][i % 5]);
+                }
+                acc.count("invalidated-branch-ending-above-the-tip", 1);
+            }
             // every third case: a never-connected record whose key agrees with an active block's hash in its first / last bytes
             if c.n >= 3 && c.n < 10_000 && i % 3 == 1 {
                 let mid = c.n / 2;
